@@ -1370,7 +1370,8 @@ def _list(eng, args, kwargs, node):
     if isinstance(x, Ref) and eng.kind(x) in ("list", "set"):
         return eng.alloc("list", items=eng.get_field(x, "items"))
     if isinstance(x, MapV):
-        return eng.new_list(x.force(eng, node))
+        r = x.force(eng, node)
+        return eng.new_list(r)
     if isinstance(x, (RangeV, EnumerateV, ZipV, tuple)):
         return eng.new_list(eng.static_items(x))
     if isinstance(x, (SSeq, bytes, str)):
@@ -1476,8 +1477,60 @@ class MapV:
         self.its = its
 
     def force(self, eng, node):
+        if len(self.its) == 1:
+            src = self.its[0]
+            c = seq_content(eng, src) if isinstance(src, Ref) and eng.kind(src) in ("list",) else src
+            if isinstance(c, SSeq):
+                return symbolic_map(eng, self.f, c, node)
         cols = [eng.static_items(x) for x in self.its]
         return [eng.call(self.f, list(row), {}, node) for row in zip(*cols)]
+
+
+def symbolic_map(eng, f, c, node):
+    """list(map(f, xs)) for xs of unknown length and a side-effect free f: r with |r| = |xs| and r[j] = f(xs[j])
+    (f's REAL body is evaluated at every index the proof needs)"""
+    from .contract import ForAll
+    from .engine import Frame
+
+    n = V.L(c)
+    cap_heap = dict(eng.heap)
+
+    def at(j):
+        cur = eng.heap
+        eng.heap = dict(cap_heap)
+        old = eng._assume_safety
+        eng._assume_safety = True
+        try:
+            v = eng.call(f, [V.nth(c, j)], {}, node)
+            for oid, cell in eng.heap.items():
+                if oid in cap_heap and cap_heap[oid] is not cell:
+                    raise EngineError("map() function has side effects")
+        finally:
+            eng._assume_safety = old
+            eng.heap = cur
+        return v
+
+    k = eng.fresh_int("k@map")
+    mark = len(eng.pc)
+    eng.pc.append(z3.And(k.t >= 0, k.t < V._zi(n)))
+    v0 = at(k)
+    del eng.pc[mark:]
+    elem = "bool" if isinstance(v0, (bool, SBool)) else ("opq" if isinstance(v0, SOpq) else ("str" if is_str(v0) else "int"))
+    res = eng.fresh_seq("mapped", elem, "list")
+    eng.pc.append(z3.Length(res.t) == V._zi(n))
+    eng.register_forall(ForAll(lambda j: V.eq(V.nth(res, j), at(j)), guard=lambda j: V.And(j >= 0, j < n), over=res))
+    return res
+
+
+class FilterV:
+    def __init__(self, f, it):
+        self.f = f
+        self.it = it
+
+
+@ext("filter")
+def _filter(eng, args, kwargs, node):
+    return FilterV(args[0], args[1])
 
 
 @ext("map")
@@ -1873,7 +1926,42 @@ def _print(eng, args, kwargs, node):
 
 @ext("next")
 def _next(eng, args, kwargs, node):
-    raise EngineError("next()")
+    """next(filter(pred, xs), default): the first element satisfying pred, else default"""
+    from .contract import ForAll
+
+    it = args[0]
+    if not isinstance(it, FilterV) or len(args) != 2:
+        raise EngineError("next() is only modelled as next(filter(pred, xs), default)")
+    default = args[1]
+    src = it.it
+    c = seq_content(eng, src) if isinstance(src, Ref) else src
+    if not isinstance(c, SSeq):
+        items = eng.static_items(src)
+        for x in items:
+            if eng.branch(V.truthy(eng.call(it.f, [x], {}, node))):
+                return x
+        return default
+    n = V.L(c)
+
+    def pred(j):
+        old = eng._assume_safety
+        eng._assume_safety = True
+        try:
+            return V.truthy(eng.call(it.f, [V.nth(c, j)], {}, node))
+        finally:
+            eng._assume_safety = old
+
+    w = eng.fresh_int("first_match")
+    found = eng.branch(V.And(w >= 0, w < n))
+    if found:
+        eng.assume(pred(w))
+        eng.register_forall(ForAll(lambda j: V.Not(pred(j)), guard=lambda j: V.And(j >= 0, j < w), over=c))
+        eng.add_index_term(w)
+        eng.ghost["first_match"] = w
+        return V.nth(c, w)
+    eng.register_forall(ForAll(lambda j: V.Not(pred(j)), guard=lambda j: V.And(j >= 0, j < n), over=c))
+    eng.ghost["first_match"] = None
+    return default
 
 
 @ext("sorted")
